@@ -544,6 +544,10 @@ enum UnitKind {
     /// multi-vertex measured shapes whose measures are [real, no-data, no-data, ..] resp. [no-data, .., real], with
     /// every single deviation on top (so that e.g. real, NaN, no-data occurs in every order)
     MPatterns,
+    /// sizes crossed with values and with structure: a special measure / Z at the start, middle or end of a part of
+    /// 300..20000 points; two long parts of every ordered pair of lengths around 2^8, 2^10, 2^14; thin rings of
+    /// about 2^14 vertices whose area is smaller than any single edge term
+    BigCross,
 }
 
 struct Tables {
@@ -672,6 +676,9 @@ fn units(which: Which, tier: Tier, t: &Tables) -> Vec<Unit> {
         }
         if ty.carries_m() && ty.family() != Family::Point {
             u.push(Unit { ty, kind: UnitKind::MPatterns });
+        }
+        if matches!(ty, Ty::MultipointM | Ty::PolylineZ | Ty::PolygonM | Ty::Multipatch | Ty::Polygon) || (tier == Tier::Thorough && ty.family() != Family::Point) {
+            u.push(Unit { ty, kind: UnitKind::BigCross });
         }
     }
     u
@@ -846,6 +853,70 @@ fn enumerate_unit(which: Which, t: &Tables, u: &Unit, ctx: &mut Ctx, tick: &dyn 
                                 let shape = MShape { ty, parts: vec![MPart { kind: 0, pts: outer }, MPart { kind: 1, pts: inner }] };
                                 go(Case { ty, shapes: vec![shape], ndev: 0, fin_mask: 0, disk: false }, ctx);
                             }
+                        }
+                    }
+                }
+            }
+        }
+        UnitKind::BigCross => {
+            let pts = |start: usize, n: usize| -> Vec<P4> { (0..n).map(|i| { let k = (start + i) as f64; [k * 0.5, 3.0 - k * 0.25, 100.0 + k, 1000.0 + k * 0.125] }).collect() };
+            let fam = ty.family();
+            let multi = |lens: &[usize]| -> MShape {
+                if fam == Family::Multipoint {
+                    return MShape { ty, parts: vec![MPart { kind: 0, pts: pts(0, lens.iter().sum()) }] };
+                }
+                let mut k = 0;
+                let parts = lens.iter().enumerate().map(|(i, l)| {
+                    let kind = if fam == Family::Multipatch { [2u8, 0, 3][i % 3] } else if fam == Family::Polygon { (i % 2) as u8 } else { 0 };
+                    let p = MPart { kind, pts: pts(k, *l) };
+                    k += l;
+                    p
+                }).collect();
+                MShape { ty, parts }
+            };
+            // (i) one special value inside a long part
+            let dims = ty.dims();
+            for n in [300usize, 513, 1030, 2100, 4200, 9000, 16385, 20000] {
+                let base = multi(&[3, n, 2]);
+                let pi = if fam == Family::Multipoint { 0 } else { 1 };
+                let off = if fam == Family::Multipoint { 3 } else { 0 };
+                for pos in [0usize, n / 2, n - 1] {
+                    for (d, vals) in [(3usize, vec![f64::NAN, f64::NEG_INFINITY, -2e39, NO_DATA, f64::INFINITY]), (2usize, vec![f64::NAN, f64::INFINITY])] {
+                        if !dims[d] {
+                            continue;
+                        }
+                        for v in vals {
+                            let mut s = base.clone();
+                            s.parts[pi].pts[off + pos][d] = v;
+                            go(Case { ty, shapes: vec![s], ndev: 1, fin_mask: 0, disk: false }, ctx);
+                        }
+                    }
+                }
+            }
+            // (ii) two long parts, every ordered pair of lengths
+            if fam != Family::Multipoint {
+                let ls = [260usize, 300, 1030, 16384, 16390, 20000];
+                for a in ls {
+                    for b in ls {
+                        go(Case { ty, shapes: vec![multi(&[a, b, 4])], ndev: 0, fin_mask: 0, disk: false }, ctx);
+                        go(Case { ty, shapes: vec![multi(&[3, a, b])], ndev: 0, fin_mask: 0, disk: false }, ctx);
+                    }
+                }
+            }
+            // (iii) thin rings whose area is smaller than any single edge term
+            if fam == Family::Polygon {
+                for n in [1000usize, 8200, 16382, 16383, 16384, 16385, 16386, 16387, 16388, 20000, 32770] {
+                    let h = 4.0 * n as f64;
+                    let mut ring: Vec<P4> = (0..n - 2).map(|i| [i as f64, h, 1.0, 2.0]).collect();
+                    ring.push([(n - 3) as f64, h + 2.0, 1.0, 2.0]);
+                    ring.push([0.0, h + 2.0, 1.0, 2.0]);
+                    for rev in [false, true] {
+                        let mut r = ring.clone();
+                        if rev {
+                            r.reverse();
+                        }
+                        for role in 0..2u8 {
+                            go(Case { ty, shapes: vec![MShape { ty, parts: vec![MPart { kind: role, pts: r.clone() }] }], ndev: 0, fin_mask: 0, disk: false }, ctx);
                         }
                     }
                 }
@@ -1051,7 +1122,7 @@ pub fn check(which: Which, tier: Tier) -> i32 {
             tier,
             level: "model_checking",
             engine: "E2 structure x deviation enumerator on the real ShapeWriter/ShapeReader",
-            rule: "every structure of the builder grammar (per type: vertex counts, part-length vectors, ring templates x declared roles, patch kinds x lengths) x every file sequence (n=1 for all, n=2,3 ordered tuples over the reduced different-size set) x every deviation set of size <= d from the per-dimension float alphabets; plus, for one type per family, EVERY part length from 2 up to the size bound and (Point, PolylineZ) EVERY record count up to the count bound (d = 0), a size ladder of many-part shapes, and every finalize placement around 1-5 writes; polygons with a unit hole at every position of a 3x3 grid, given in both orientations, translated by offsets {2^27, 2^30+1, 10^9, 2^40, -(10^9+7)}^2; measured multi-vertex shapes with measures [real, no-data, ..] and [no-data, .., real] under every single deviation; (C02) every history over {write a, write b, finalize} up to the fault-history bound x {with, without .shx} x 13 types with every single one-shot fault and every unordered pair of faults (operation k of .shp / .shx fails once): whenever no fault fired in drop, the .shp up to its declared length is well-formed and holds exactly the shapes whose write returned Ok; distinct = hash of all coordinate bit patterns and structure; non-trivial = >=2 records or >=2 parts or >=1 deviation",
+            rule: "every structure of the builder grammar (per type: vertex counts, part-length vectors, ring templates x declared roles, patch kinds x lengths) x every file sequence (n=1 for all, n=2,3 ordered tuples over the reduced different-size set) x every deviation set of size <= d from the per-dimension float alphabets; plus, for one type per family, EVERY part length from 2 up to the size bound and (Point, PolylineZ) EVERY record count up to the count bound (d = 0), a size ladder of many-part shapes, and every finalize placement around 1-5 writes; polygons with a unit hole at every position of a 3x3 grid, given in both orientations, translated by offsets {2^27, 2^30+1, 10^9, 2^40, -(10^9+7)}^2; measured multi-vertex shapes with measures [real, no-data, ..] and [no-data, .., real] under every single deviation; sizes crossed with values and structure (a special measure / Z at the start, middle, end of a part of 300..20000 points; every ordered pair of two long parts over {260, 300, 1030, 16384, 16390, 20000}; thin rings of about 2^14 vertices whose area is smaller than any edge term); (C02) every history over {write a, write b, finalize} up to the fault-history bound x {with, without .shx} x 13 types with every single one-shot fault and every unordered pair of faults (operation k of .shp / .shx fails once): whenever no fault fired in drop, the .shp up to its declared length is well-formed and holds exactly the shapes whose write returned Ok; distinct = hash of all coordinate bit patterns and structure; non-trivial = >=2 records or >=2 parts or >=1 deviation",
             bounds: json!({
                 "types": 13,
                 "structures_total": nstructs,
